@@ -231,6 +231,25 @@ def apply_edit(pkg: M.Package, rng: Rng, kind: str, only=None, only_steps=None):
             steps.append((_fresh_member([s for s, _, _ in steps], rng), M.Named(rng.choice(plain).name), True))
         pkg.files[fn].append(Protocol(name, steps))
         return "add_protocol %s" % name
+    if kind == "shrink_enum":
+        # several symbols of one enum removed and others renumbered at once (never evolution-safe)
+        es = [d for d in pkg.defs() if isinstance(d, Enum) and not d.flags and len(d.values) >= 3]
+        if not es:
+            # make one: an enum with many symbols is needed in the *previous* version too, so this only helps on later steps
+            return None
+        e = rng.choice(es)
+        keep = rng.randint(1, len(e.values) - 2)
+        gone = e.values[keep:]
+        e.values = e.values[:keep]
+        used = {v for _, v in e.values}
+        lo, hi = M.INT_RANGE[e.base or "int32"]
+        for i, (sym, v) in enumerate(list(e.values)):
+            if rng.chance(0.6):
+                nv = next((x for x in range(max(lo, 0), 127) if x not in used and x != v and x <= hi), None)
+                if nv is not None:
+                    used.add(nv)
+                    e.values[i] = (sym, nv)
+        return "shrink_enum %s (removed %s)" % (e.name, ",".join(s_ for s_, _ in gone))
     if kind == "change_enum":
         es = [d for d in pkg.defs() if isinstance(d, Enum) and not d.flags]
         if not es:
